@@ -2,7 +2,7 @@
    prototype Dd.v and adapted), GetValue, construction, apply1/2/3, projection, renaming, prefix
    extension and selection: pointwise meaning and preservation of well-formedness. *)
 From Coq Require Import List Arith Lia Bool.
-From V Require Import MtbddDefs.
+From V Require Import MtbddDefs MtbddOps.
 Import ListNotations.
 
 Section DDP.
@@ -622,4 +622,52 @@ Proof.
   - destruct hi; simpl in *; auto.
 Qed.
 
+
+(* ---- the traversing functors are shown the leaves: exactly the values the function takes --------- *)
+Theorem leaves_ev d : ordered d -> forall v, In v (leaves V d) <-> exists s, ev d s = v.
+Proof.
+  induction d as [u|x l IHl h IHh]; simpl; intros O v.
+  - split; [intros [->|[]]; exists (fun _ => false); reflexivity | intros [_ ->]; auto].
+  - destruct O as [Tl [Th [Ol Oh]]]. rewrite in_app_iff, (IHl Ol), (IHh Oh). split.
+    + intros [[s E]|[s E]].
+      * exists (upd s x false). unfold upd at 1. rewrite Nat.eqb_refl. rewrite ev_upd_below; auto. apply ordered_below; auto.
+      * exists (upd s x true). unfold upd at 1. rewrite Nat.eqb_refl. rewrite ev_upd_below; auto. apply ordered_below; auto.
+    + intros [s E]. destruct (s x); eauto.
+Qed.
+Lemma memb_spec v l : memb V V_eq_dec v l = true <-> In v l.
+Proof.
+  unfold memb. rewrite existsb_exists. split.
+  - intros [u [H E]]. destruct (V_eq_dec u v); [subst; auto|discriminate].
+  - intros H. exists v. split; auto. destruct (V_eq_dec v v); congruence.
+Qed.
+Theorem same_set_spec a b : same_set V V_eq_dec a b = true <-> forall v, In v a <-> In v b.
+Proof.
+  unfold same_set. rewrite andb_true_iff, !forallb_forall. split.
+  - intros [A B] v. split; intros H; [apply memb_spec, A | apply memb_spec, B]; auto.
+  - intros H. split; intros v Hv; apply memb_spec, H; auto.
+Qed.
+Corollary void1_gate seen d : wf d ->
+  (same_set V V_eq_dec seen (leaves V d) = true <-> forall v, In v seen <-> exists s, ev d s = v).
+Proof.
+  intros W. rewrite same_set_spec. split; intros H v; rewrite (H v).
+  - apply leaves_ev, wf_ordered, W.
+  - symmetry. apply leaves_ev, wf_ordered, W.
+Qed.
+Corollary void2_gate op seen a b : wf a -> wf b ->
+  (same_set V V_eq_dec seen (leaves V (apply2 V V_eq_dec op a b)) = true <->
+   forall p, In p seen <-> exists s, op (ev a s) (ev b s) = p).
+Proof.
+  intros Wa Wb. rewrite (void1_gate seen _ (apply2_wf op a b Wa Wb)).
+  split; intros H p; rewrite (H p); split; intros [s E]; exists s; rewrite apply2_ev in *; auto.
+Qed.
+
 End DDP.
+
+(* a diagram over two variables, built and combined as the package does *)
+Lemma example_dd :
+  let a := construct nat Nat.eq_dec [T1; TX] 1 0 in
+  let b := construct nat Nat.eq_dec [TX; T1] 2 0 in
+  let c := apply2 nat Nat.eq_dec Nat.add a b in
+  wf nat c /\ c = Nd 1 (Nd 0 (Leaf 0) (Leaf 1)) (Nd 0 (Leaf 2) (Leaf 3)) /\
+  apply2 nat Nat.eq_dec Nat.add b a = c /\ get_value nat c [TX; T1] = 2.
+Proof. vm_compute. repeat split; auto; discriminate. Qed.
